@@ -70,7 +70,9 @@ def implicit_trapezoid(dae: nDAE,
                  lambda y_, p_: -dae.M + dt / 2 * dae.J(t0 + dt, y_, p_),
                  p)
 
-        sol = nr_method(ae, y0, Opt(stats=True, ite_tol=opt.ite_tol))
+        # at least one iteration: the residual of the step equation at y0 is O(dt), so for dt * |F| <= ite_tol
+        # the start value would pass the test and the state would not move at all
+        sol = nr_method(ae, y0, Opt(stats=True, ite_tol=opt.ite_tol, min_it=1))
         y1 = sol.y
         stats.ndecomp = stats.ndecomp + sol.stats.nstep
         stats.nfeval = stats.nfeval + sol.stats.nstep
